@@ -5,6 +5,7 @@ import Casket.Proofs.AutoHTTPSAddr
 import Casket.Proofs.AutoHTTPSInspect
 import Casket.Proofs.AutoHTTPSAddrIP
 import Casket.Proofs.AutoHTTPSSame
+import Casket.Proofs.AutoHTTPSAddr6
 /-
 C15 — Automatic HTTPS is applied exactly to qualifying sites, with redirects.
 
@@ -406,5 +407,40 @@ theorem C15_inspect_pair_iff (a b : AddrParts) (hoa : a.ok) (hob : b.ok) (hsa : 
 /-- …and the effective site is what the judge of stream c15.inspect reads from the text (`denotes`). -/
 theorem C15_denotes_is_effective (a : AddrParts) (hok : a.ok) :
     denotes (composeAddr a) = ((effective a).1, (effective a).2.1, (effective a).2.2, []) := denotes_compose a hok
+
+/-! ### bracketed IPv6 literals -/
+
+/-- THE SCHEME/PORT TABLE for `[scheme://][v6][:port]`, any IPv6 notation net.ParseIP accepts (compressed or not, upper or lower
+case, embedded IPv4; no zone), with and without port: same table as for names, the host is the literal without brackets. -/
+theorem C15_standardize_table_ipv6 (a : V6Parts) (hok : a.ok) : standardizeAddress (composeAddr6 a) = expectedAddr6 a :=
+  standardize_compose6 a hok
+
+example : V6Parts.ok { scheme := b!"https", v6 := b!"2001:DB8::1", port := some b!"8443" } ∧ V6Parts.ok { v6 := b!"::ffff:10.0.0.1" } := by
+  refine ⟨⟨by decide, by decide, by decide, ?_⟩, ⟨by decide, by decide, by decide, ?_⟩⟩
+  · intro p hp; cases hp; exact ⟨by decide, by decide⟩
+  · intro p hp; cases hp
+
+/-- After Normalize the host is net.IP.String of the literal (lower case): every notation of an address gives the same host;
+VHost keeps the text as written, brackets and port included. -/
+theorem C15_normalized_ipv6 (a : V6Parts) (hok : a.ok) (r : Address) (h : standardizeAddress (composeAddr6 a) = .ok r) :
+    r.normalize.host = toLower (canonHost a.v6) ∧ r.normalize.port = tablePort (toLower a.scheme) a.port ∧
+    r.normalize.scheme = tableScheme (toLower a.scheme) (tablePort (toLower a.scheme) a.port) ∧
+    r.normalize.vhost = hostPort6 a := by
+  have hn := normalized_compose6 a hok r h
+  exact ⟨by rw [hn], by rw [hn], by rw [hn], vhost_compose6 a hok r h⟩
+
+example : toLower (canonHost b!"2001:DB8:0:0::1") = b!"2001:db8::1" ∧ toLower (canonHost b!"::ffff:10.0.0.1") = b!"10.0.0.1" := by decide
+
+/-- Address.Key of a bracketed IPv6 literal written in canonical form, with or without port: scheme prefix and literal — the
+explicit port is NEVER part of the key (Key's offset arithmetic assumes the original host text, which has brackets here).
+Consequence, with `C15_inspect_duplicates_iff`: `[v6]:p` and `[v6]:q` under the same scheme are rejected as "duplicate site
+key" although they are different sites (witness `C15_key_ipv6_drops_port_witness`; real loader: stream c15.inspect).
+A defect for C01/C09 to own; C15's property does not depend on it. -/
+theorem C15_key_ipv6_drops_port (a : V6Parts) (hok : a.ok) (hcan : toLower (canonHost a.v6) = a.v6) (r : Address)
+    (h : standardizeAddress (composeAddr6 a) = .ok r) :
+    r.normalize.key = schemePrefix (tableScheme (toLower a.scheme) (tablePort (toLower a.scheme) a.port)) ++ a.v6 :=
+  key_compose6_drops_port a hok hcan r h
+
+example : toLower (canonHost b!"::1") = b!"::1" ∧ toLower (canonHost b!"2001:db8::1") = b!"2001:db8::1" := by decide
 
 end Casket.Props.C15
